@@ -107,6 +107,33 @@ def parse(node, s, pos):
     raise ValueError(node)
 
 
+def node_sexp(n):
+    t = n[0]
+    if t == "str":
+        return "(str %s)" % n[1].encode().hex()
+    if t == "empty":
+        return "(empty)"
+    if t == "choice":
+        return "(choice %s %s)" % (node_sexp(n[1]), node_sexp(n[2]))
+    if t == "seq":
+        return "(seq %d %s %s)" % (n[3], node_sexp(n[2]), " ".join(node_sexp(e) for e in n[1]))
+    if t == "rep":
+        return "(rep %d %d %s %s %s)" % (n[3], n[4], "-" if n[5] is None else n[5], node_sexp(n[2]), node_sexp(n[1]))
+    raise ValueError(n)
+
+
+def run_model(maxlen):
+    """the extracted Model/SkipN.v (sparse / scheck) on the same types and inputs; returns (ok, lines or log)"""
+    ok, exe = build.build_extraction("SkipN")
+    if not ok:
+        return False, exe
+    req = "".join("T %s %s\n" % (d, node_sexp(n)) for d, _, n in types()) + "R %d\n" % maxlen
+    p = subprocess.run([exe], input=req, capture_output=True, text=True, timeout=3000)
+    if p.returncode != 0:
+        return False, p.stderr[-2000:]
+    return True, [l for l in p.stdout.split("\n") if l]
+
+
 def write_sources():
     tpl = open(os.path.join(HARNESS, "Cargo.toml.in")).read().replace("@REPO@", REPO)
     p = os.path.join(HARNESS, "Cargo.toml")
@@ -138,9 +165,15 @@ def check_skip_counts(ctx, maxlen):
     nodes = {d: (ty, n) for d, ty, n in types()}
     n = bad = 0
     reported = set()
-    for line in p.stdout.split("\n"):
-        if not line:
-            continue
+    impl_lines = [l for l in p.stdout.split("\n") if l]
+    mok, model_lines = run_model(maxlen)
+    ctx.oblige("extraction + ocamlopt of Model/SkipN.v and its run on the same types and inputs", mok, "" if mok else model_lines[-1500:])
+    t2bad = 0
+    if mok:
+        if len(model_lines) != len(impl_lines):
+            ctx.violation("Model/SkipN.v run: %d lines for %d implementation lines" % (len(model_lines), len(impl_lines)), {}, found_input=False)
+            mok = False
+    for li, line in enumerate(impl_lines):
         d, hx, pf, cf = line.split("\t")
         ty, node = nodes[d]
         s = bytes.fromhex(hx).decode() if hx != "-" else ""
@@ -165,6 +198,16 @@ def check_skip_counts(ctx, maxlen):
                               {"type": ty, "descriptor": d, "input": s, "input_hex": hx, "impl": [pf, cf], "spec": [wp, wc],
                                "skip_nodes": {"Blank1": '" "? = RepMinMax<Str<" ">, Empty, 0, 0, 1>', "Blank2": '" "{0,2}'},
                                "rerun": ".cache/target/debug/unitskip %d | grep -F '%s' | grep -F '%s'" % (maxlen, d, hx)})
+        if mok and model_lines[li] != line:
+            t2bad += 1
+            # a failing input of the property on this case was reported above if there is one; otherwise the bare correspondence
+            if pf == wp and cf == wc and t2bad <= 2:
+                ctx.violation("Model/SkipN.v (sparse / scheck) no longer describes %s on %r" % (ty, s),
+                              {"type": ty, "input": s, "impl": line, "model": model_lines[li],
+                               "broken": "correspondence Model/SkipN.v vs main/src/predefined_node/repetition.rs, sequence.rs"}, found_input=False)
+    ctx.coverage["skipn_model_mismatches"] = t2bad
+    ctx.oblige("raw repetitions / sequences with SKIP in 0..3 == extracted Model/SkipN.v (parse path and check path) on %d (type, input) pairs" % n,
+               (not mok) or t2bad == 0)
     ctx.evaluations += n
     ctx.coverage["skipn_types"] = len(nodes)
     ctx.coverage["skipn_cases"] = n
